@@ -25,3 +25,27 @@ Gen/Tables.vos Gen/Tables.vok Gen/Tables.required_vos: Gen/Tables.v Model/Tables
 Proofs/BytesFacts.vo Proofs/BytesFacts.glob Proofs/BytesFacts.v.beautified Proofs/BytesFacts.required_vo: Proofs/BytesFacts.v Model/Bytes.vo
 Proofs/BytesFacts.vio: Proofs/BytesFacts.v Model/Bytes.vio
 Proofs/BytesFacts.vos Proofs/BytesFacts.vok Proofs/BytesFacts.required_vos: Proofs/BytesFacts.v Model/Bytes.vos
+Spec/Grammar.vo Spec/Grammar.glob Spec/Grammar.v.beautified Spec/Grammar.required_vo: Spec/Grammar.v Model/Parse.vo
+Spec/Grammar.vio: Spec/Grammar.v Model/Parse.vio
+Spec/Grammar.vos Spec/Grammar.vok Spec/Grammar.required_vos: Spec/Grammar.v Model/Parse.vos
+Proofs/ParseGrammar.vo Proofs/ParseGrammar.glob Proofs/ParseGrammar.v.beautified Proofs/ParseGrammar.required_vo: Proofs/ParseGrammar.v Model/Parse.vo Spec/Grammar.vo
+Proofs/ParseGrammar.vio: Proofs/ParseGrammar.v Model/Parse.vio Spec/Grammar.vio
+Proofs/ParseGrammar.vos Proofs/ParseGrammar.vok Proofs/ParseGrammar.required_vos: Proofs/ParseGrammar.v Model/Parse.vos Spec/Grammar.vos
+Spec/Lex.vo Spec/Lex.glob Spec/Lex.v.beautified Spec/Lex.required_vo: Spec/Lex.v Model/Tokens.vo
+Spec/Lex.vio: Spec/Lex.v Model/Tokens.vio
+Spec/Lex.vos Spec/Lex.vok Spec/Lex.required_vos: Spec/Lex.v Model/Tokens.vos
+Proofs/ScanRef.vo Proofs/ScanRef.glob Proofs/ScanRef.v.beautified Proofs/ScanRef.required_vo: Proofs/ScanRef.v Model/Scan.vo Spec/Lex.vo Proofs/BytesFacts.vo
+Proofs/ScanRef.vio: Proofs/ScanRef.v Model/Scan.vio Spec/Lex.vio Proofs/BytesFacts.vio
+Proofs/ScanRef.vos Proofs/ScanRef.vok Proofs/ScanRef.required_vos: Proofs/ScanRef.v Model/Scan.vos Spec/Lex.vos Proofs/BytesFacts.vos
+Spec/Eval.vo Spec/Eval.glob Spec/Eval.v.beautified Spec/Eval.required_vo: Spec/Eval.v Model/Parse.vo
+Spec/Eval.vio: Spec/Eval.v Model/Parse.vio
+Spec/Eval.vos Spec/Eval.vok Spec/Eval.required_vos: Spec/Eval.v Model/Parse.vos
+Spec/WF.vo Spec/WF.glob Spec/WF.v.beautified Spec/WF.required_vo: Spec/WF.v Model/Api.vo
+Spec/WF.vio: Spec/WF.v Model/Api.vio
+Spec/WF.vos Spec/WF.vok Spec/WF.required_vos: Spec/WF.v Model/Api.vos
+Proofs/NodeInv.vo Proofs/NodeInv.glob Proofs/NodeInv.v.beautified Proofs/NodeInv.required_vo: Proofs/NodeInv.v Model/Api.vo Spec/Lex.vo Spec/Grammar.vo Spec/Eval.vo Spec/WF.vo Proofs/BytesFacts.vo Proofs/ScanRef.vo Proofs/ParseGrammar.vo
+Proofs/NodeInv.vio: Proofs/NodeInv.v Model/Api.vio Spec/Lex.vio Spec/Grammar.vio Spec/Eval.vio Spec/WF.vio Proofs/BytesFacts.vio Proofs/ScanRef.vio Proofs/ParseGrammar.vio
+Proofs/NodeInv.vos Proofs/NodeInv.vok Proofs/NodeInv.required_vos: Proofs/NodeInv.v Model/Api.vos Spec/Lex.vos Spec/Grammar.vos Spec/Eval.vos Spec/WF.vos Proofs/BytesFacts.vos Proofs/ScanRef.vos Proofs/ParseGrammar.vos
+Proofs/Sat.vo Proofs/Sat.glob Proofs/Sat.v.beautified Proofs/Sat.required_vo: Proofs/Sat.v Model/Api.vo Spec/Grammar.vo Spec/Eval.vo Spec/WF.vo Proofs/BytesFacts.vo Proofs/NodeInv.vo
+Proofs/Sat.vio: Proofs/Sat.v Model/Api.vio Spec/Grammar.vio Spec/Eval.vio Spec/WF.vio Proofs/BytesFacts.vio Proofs/NodeInv.vio
+Proofs/Sat.vos Proofs/Sat.vok Proofs/Sat.required_vos: Proofs/Sat.v Model/Api.vos Spec/Grammar.vos Spec/Eval.vos Spec/WF.vos Proofs/BytesFacts.vos Proofs/NodeInv.vos
